@@ -292,7 +292,7 @@ def walk():
 # kernel build the table itself with `mkInfo` takes 15 minutes.)
 
 ANYTAG, ANYAPP = ("anyTag",), ("anyApp",)
-BAD_INFO = {"first": [], "nullable": False, "confus": [ANYTAG], "sup": False}
+BAD_INFO = {"first": [], "nullable": False, "confus": [ANYTAG], "ff": False}
 
 
 def _kind(ref):
@@ -339,20 +339,16 @@ def info_table(sch):
             return (list(look(f.ref)["first"]) if f.opt else []) + list(look(f.ref)["confus"])
         return field_first(f) if f.opt else []
 
-    def field_sup(f):
-        k = _kind(f.ref)
-        if k in ("prim", "anyAtomic"):
-            return True
-        if f.ctx is not None:
-            return look(f.ref)["sup"]
-        return look(f.ref)["sup"] and not f.opt
-
-    def alt_sup(f):
+    def field_ff(f):
+        if f.opt:
+            return False
         k = _kind(f.ref)
         if k == "prim":
+            return f.ctx is not None
+        if k in ("listOf", "struct") and f.ctx is not None:
             return True
-        if k in ("seqOf", "listOf", "struct") and f.ctx is not None:
-            return look(f.ref)["sup"]
+        if k == "struct" and f.ctx is None:
+            return look(f.ref)["ff"]
         return False
 
     def first_fields(fs):
@@ -373,19 +369,18 @@ def info_table(sch):
     for n in sch.nodes:
         if n.k == "seq":
             inf = {"first": first_fields(n.fields), "nullable": all(field_nullable(f) for f in n.fields),
-                   "confus": confus_fields(n.fields), "sup": all(field_sup(f) for f in n.fields)}
+                   "confus": confus_fields(n.fields), "ff": field_ff(n.fields[0]) if n.fields else False}
         elif n.k == "choice":
             inf = {"first": [p for f in n.fields for p in field_first(f)], "nullable": False, "confus": [],
-                   "sup": all(alt_sup(f) for f in n.fields)}
+                   "ff": True}
         elif n.k == "list":
             k = _kind(n.elem)
             first = [("app", n.elem.app)] if k == "prim" else [ANYAPP] if k == "anyAtomic" else list(look(n.elem)["first"])
-            sup = True if k == "prim" else False if k == "anyAtomic" else look(n.elem)["sup"]
-            inf = {"first": first, "nullable": not (n.fixed is not None and n.fixed > 0), "confus": [ANYTAG], "sup": sup}
+            inf = {"first": first, "nullable": not (n.fixed is not None and n.fixed > 0), "confus": [ANYTAG], "ff": False}
         elif n.k == "any":
-            inf = {"first": [ANYTAG], "nullable": True, "confus": [ANYTAG], "sup": True}
+            inf = {"first": [ANYTAG], "nullable": True, "confus": [ANYTAG], "ff": False}
         elif n.k == "nameValue":
-            inf = {"first": [("ctx", 0)], "nullable": False, "confus": [ANYAPP], "sup": False}
+            inf = {"first": [("ctx", 0)], "nullable": False, "confus": [ANYAPP], "ff": False}
         else:
             raise SchemaError(n.k)
         I.append(inf)
@@ -400,7 +395,7 @@ def lean_info(inf):
     return "⟨[%s], %s, [%s], %s⟩" % (", ".join(lean_pat(p) for p in inf["first"]),
                                      "true" if inf["nullable"] else "false",
                                      ", ".join(lean_pat(p) for p in inf["confus"]),
-                                     "true" if inf["sup"] else "false")
+                                     "true" if inf["ff"] else "false")
 
 
 # --------------------------------------------------------------------------
@@ -443,7 +438,7 @@ def to_lean(sch):
     L.append(",\n".join(rows))
     L.append("]")
     L.append("")
-    L.append("/-- first / nullable / follow / in-proved-fragment per type: a certificate that")
+    L.append("/-- first / nullable / follow / fails-fast per type: a certificate that")
     L.append("    `wfEnv env info` re-checks entry by entry against `infoOf` -/")
     L.append("def info : Table := #[")
     L.append(",\n".join("  /- %3d -/ %s" % (n.idx, lean_info(inf)) for n, inf in zip(sch.nodes, info_table(sch))))
